@@ -1,5 +1,6 @@
 From Coq Require Import List NArith Bool.
-From C33 Require Import C36.Model C36.ProofsBase C36.ProofsClose C36.ProofsBlock C36.ProofsMain.
+From C33 Require Import C36.Model C36.ProofsBase C36.ProofsClose C36.ProofsBlock C36.ProofsMain
+  C36.ProofsExt C36.ProofsExt2 C36.ProofsExt3 C36.ProofsExt4.
 Import ListNotations.
 Open Scope N_scope.
 
@@ -30,8 +31,14 @@ Example C36_discipline_satisfiable :
 Proof. exact roundtrip_disciplined. Qed.
 Print Assumptions C36_discipline_satisfiable.
 
-Theorem C36_after_close_errors : after_close_errors_stmt.
-Proof. exact after_close_errors_proof. Qed.
+Example C36_discipline_satisfiable_two_subscriptions :
+  exists s, drun (init (mkCaps 2 2 5)) two_subs_trace = Some s /\ recv_ids_tr two_subs_trace = [1; 2]
+            /\ subs_of s 0 = [0; 1].
+Proof. exact two_subs_disciplined. Qed.
+Print Assumptions C36_discipline_satisfiable_two_subscriptions.
+
+Theorem C36_after_close_errors : ProofsExt.after_close_errors_stmt.
+Proof. exact ProofsExt.after_close_errors_proof. Qed.
 Print Assumptions C36_after_close_errors.
 
 Theorem C36_queue_close_closes_topics :
@@ -66,19 +73,37 @@ Example C36_never_subscribed_client_closes :
 Proof. exact never_subscribed_close_runs. Qed.
 Print Assumptions C36_never_subscribed_client_closes.
 
-Theorem C36_after_close_no_block_forever :
-  forall cp tr s p pd, run (init cp) tr = Some s -> s_qclosed s = true ->
-    pend_get p (s_pend s) = Some pd ->
-    exists tr2 s2, run s tr2 = Some s2 /\ pend_get p (s_pend s2) = None.
-Proof. exact no_block_forever_proof. Qed.
-Print Assumptions C36_after_close_no_block_forever.
+Theorem C36_after_close_parked_send_returns_error_refuted : ~ parked_send_returns_error_full.
+Proof. exact parked_send_returns_error_refuted. Qed.
+Print Assumptions C36_after_close_parked_send_returns_error_refuted.
 
-Theorem C36_after_close_parked_send_returns_error :
-  forall cp tr s p pd, run (init cp) tr = Some s -> s_qclosed s = true ->
+Theorem C36_after_close_parked_send_returns_error_partial :
+  forall cp tr s p pd, grun bdisc (init cp) tr = Some s -> s_qclosed s = true ->
     pend_get p (s_pend s) = Some pd ->
     exists r s2, is_err r = true /\ step s (EUnblock p r) = Some s2 /\ pend_get p (s_pend s2) = None.
 Proof. exact parked_send_returns_error_proof. Qed.
-Print Assumptions C36_after_close_parked_send_returns_error.
+Print Assumptions C36_after_close_parked_send_returns_error_partial.
+
+Theorem C36_after_close_no_block_forever_partial :
+  forall cp tr s p pd, grun bdisc (init cp) tr = Some s -> s_qclosed s = true ->
+    pend_get p (s_pend s) = Some pd ->
+    exists tr2 s2, run s tr2 = Some s2 /\ pend_get p (s_pend s2) = None.
+Proof. exact no_block_forever_proof. Qed.
+Print Assumptions C36_after_close_no_block_forever_partial.
+
+Theorem C36_atomic_queue_close_meets_guard :
+  forall cp tr s, forallb (fun e => match e with ECloseQBegin => false | _ => true end) tr = true ->
+    run (init cp) tr = Some s -> grun bdisc (init cp) tr = Some s.
+Proof. intros cp tr s. apply bdisc_atomic. discriminate. Qed.
+Print Assumptions C36_atomic_queue_close_meets_guard.
+
+Example C36_send_parked_inside_queue_close_never_woken :
+  exists s, run (init (mkCaps 1 1 5)) late_park_trace = Some s
+            /\ s_qclosed s = true /\ t_closed (gt s 7) = false
+            /\ pend_get 9 (s_pend s) = Some (mkP 1 1 true false 7)
+            /\ forall r, is_err r = true -> step s (EUnblock 9 r) = None.
+Proof. exact late_park_runs. Qed.
+Print Assumptions C36_send_parked_inside_queue_close_never_woken.
 
 Example C36_parked_low_sender_woken :
   exists s s2, run (init witness_caps) witness_trace = Some s
@@ -95,7 +120,7 @@ Example C36_parked_high_sender_woken :
                  [ENew 0 0 1; ESend 1 0 true MNow SOk; ENew 1 0 2; EBlock 9 1 1 true MForever; ECloseQueue] = Some s
                /\ s_qclosed s = true /\ pend_get 9 (s_pend s) = Some pd /\ p_high pd = true
                /\ step s (EUnblock 9 SErrChan) = Some s2 /\ s_pend s2 = [].
-Proof. eexists _, _, _. repeat split; vm_compute; reflexivity. Qed.
+Proof. exact high_sender_woken_runs. Qed.
 Print Assumptions C36_parked_high_sender_woken.
 
 Example C36_bulk_fill_agrees :
@@ -104,3 +129,180 @@ Example C36_bulk_fill_agrees :
           [1; 2; 5; 17; 30; 31] = true.
 Proof. exact bulk_fill_agrees. Qed.
 Print Assumptions C36_bulk_fill_agrees.
+
+(** *** the extension: exact wait condition *)
+Theorem C36_wait_returns_iff :
+  forall s c o timed,
+    (exists r s', step s (EWait c o timed r) = Some s') <-> wait_returns_guard s c o timed = true.
+Proof. exact wait_enabled_iff. Qed.
+Print Assumptions C36_wait_returns_iff.
+
+(** *** finding 3: several subscriptions of one client *)
+Theorem C36_closed_subscriber_topics_closed_refuted : ~ closed_subscriber_topics_closed_full.
+Proof. exact closed_subscriber_topics_closed_refuted. Qed.
+Print Assumptions C36_closed_subscriber_topics_closed_refuted.
+
+Theorem C36_closed_subscriber_topics_closed_partial :
+  forall cp tr s c s1, run (init cp) tr = Some s -> close_returned s c s1 ->
+    single_sub s1 c = true ->
+    forall tr2 s2, run s1 tr2 = Some s2 ->
+    forall t, In t (subs_of s1 c) -> t_closed (gt s2 t) = true.
+Proof. exact closed_subscriber_topics_closed_partial. Qed.
+Print Assumptions C36_closed_subscriber_topics_closed_partial.
+
+Theorem C36_closed_subscriber_last_topic_closed :
+  forall cp tr s c s1, run (init cp) tr = Some s -> close_returned s c s1 ->
+    c_pump (gc s1 c) <> PNone ->
+    forall tr2 s2, run s1 tr2 = Some s2 ->
+      t_closed (gt s2 (last_of s1 c)) = true
+      /\ (forall c' o hi m r s3, o_topic (go s2 o) = last_of s1 c ->
+            step s2 (ESend c' o hi m r) = Some s3 -> is_err r = true)
+      /\ (forall c' o timed, o_topic (go s2 o) = last_of s1 c ->
+            exists r s3, step s2 (EWait c' o timed r) = Some s3).
+Proof. exact closed_subscriber_last_topic_closed. Qed.
+Print Assumptions C36_closed_subscriber_last_topic_closed.
+
+Example C36_two_topic_subscriber_leaves_topic_open :
+  exists s s1 s2, run (init (mkCaps 2 2 5)) two_topics_trace = Some s
+    /\ step s (ECloseEnd 0) = Some s1
+    /\ subs_of s1 0 = [0; 1] /\ last_of s1 0 = 1
+    /\ t_closed (gt s1 1) = true /\ t_closed (gt s1 0) = false
+    /\ close_done s1 0 = true
+    /\ run s1 two_topics_after = Some s2
+    /\ f_len (t_high (gt s2 0)) = 1
+    /\ (forall r, step s2 (EWait 1 0 false r) = None)
+    /\ step s2 (EPumpTake 0 true) = None /\ step s2 (EXTake 0 true) = None.
+Proof. exact two_topics_runs. Qed.
+Print Assumptions C36_two_topic_subscriber_leaves_topic_open.
+
+Example C36_single_sub_satisfiable :
+  exists s s1, run (init (mkCaps 2 2 5)) [ESub 0 3] = Some s
+    /\ close_returned s 0 s1 /\ single_sub s1 0 = true /\ subs_of s1 0 = [3] /\ t_closed (gt s1 3) = true.
+Proof. exact one_topic_runs. Qed.
+Print Assumptions C36_single_sub_satisfiable.
+
+(** *** finding 4: overlapping Close calls *)
+Theorem C36_close_never_panics_refuted : ~ close_never_panics_full.
+Proof. exact close_never_panics_refuted. Qed.
+Print Assumptions C36_close_never_panics_refuted.
+
+Theorem C36_close_never_panics_partial :
+  forall s c, close_in_progress s c = false ->
+    step s (EClosePanic c) = None
+    /\ ((exists s1, step s (ECloseNoop c) = Some s1) \/ (exists s1, step s (ECloseBegin c) = Some s1)).
+Proof. exact close_no_overlap_no_panic. Qed.
+Print Assumptions C36_close_never_panics_partial.
+
+Theorem C36_close_panics_iff_overlap :
+  forall s c, (exists s1, step s (EClosePanic c) = Some s1) <-> close_in_progress s c = true.
+Proof. exact close_panic_iff. Qed.
+Print Assumptions C36_close_panics_iff_overlap.
+
+Example C36_overlapping_close_panics :
+  exists s, run (init (mkCaps 2 2 1)) overlap_trace = Some s
+            /\ close_in_progress s 0 = true
+            /\ step s (ECloseEnd 0) = None /\ step s (EPumpPut 0) = None /\ step s (EPumpExit 0) = None
+            /\ step s (EClosePanic 0) = Some s.
+Proof. exact overlap_runs. Qed.
+Print Assumptions C36_overlapping_close_panics.
+
+Example C36_sequential_closes_satisfiable :
+  exists s s1 s2, run (init (mkCaps 2 2 5)) [ESub 0 0; ECloseBegin 0; EPumpTake 0 true; ECloseEnd 0] = Some s
+    /\ close_in_progress s 0 = false /\ step s (ECloseNoop 0) = Some s1
+    /\ run (init (mkCaps 2 2 5)) [ESub 0 0] = Some s2 /\ close_in_progress s2 0 = false
+    /\ step s2 (EClosePanic 0) = None.
+Proof. exact sequential_closes_run. Qed.
+Print Assumptions C36_sequential_closes_satisfiable.
+
+(** *** finding 5: the sentinel look-alike *)
+Theorem C36_pump_stops_only_on_close_refuted : ~ pump_stops_only_on_close_full.
+Proof. exact pump_stops_only_on_close_refuted. Qed.
+Print Assumptions C36_pump_stops_only_on_close_refuted.
+
+Theorem C36_pump_stops_only_on_close_partial :
+  forall cp tr s, grun rdisc (init cp) tr = Some s ->
+    (forall c, c_pump (gc s c) = PExit -> t_closed (gt s (c_topic (gc s c))) = true \/ c_closing (gc s c) = true)
+    /\ (forall k, x_st (gx s k) = PExit ->
+          t_closed (gt s (x_topic (gx s k))) = true \/ c_closing (gc s (x_client (gx s k))) = true).
+Proof. exact pump_stops_only_on_close_partial. Qed.
+Print Assumptions C36_pump_stops_only_on_close_partial.
+
+Theorem C36_running_pump_takes :
+  forall cp tr s c, grun rdisc (init cp) tr = Some s ->
+    c_pump (gc s c) = PRun -> c_hold (gc s c) = None ->
+    fis_empty (t_high (gt s (c_topic (gc s c)))) = false ->
+    exists s', step s (EPumpTake c true) = Some s'.
+Proof. exact running_pump_takes. Qed.
+Print Assumptions C36_running_pump_takes.
+
+Example C36_lookalike_loses_request :
+  exists s, run (init (mkCaps 2 2 5)) lookalike_trace = Some s
+    /\ c_pump (gc s 0) = PExit /\ c_topic (gc s 0) = 0
+    /\ t_closed (gt s 0) = false /\ c_closing (gc s 0) = false /\ s_qclosed s = false
+    /\ f_len (t_high (gt s 0)) = 1 /\ f_len (c_recv (gc s 0)) = 0
+    /\ step s (EPumpTake 0 true) = None /\ step s (EPumpPut 0) = None
+    /\ (forall o i, step s (ERecv 0 o i) = None)
+    /\ (forall r, step s (EWait 1 1 false r) = None).
+Proof. exact lookalike_runs. Qed.
+Print Assumptions C36_lookalike_loses_request.
+
+Example C36_nonzero_id_guard_satisfiable :
+  exists s, grun rdisc (init (mkCaps 2 2 5))
+              [ESub 0 0; ENew 0 0 1; ESend 1 0 true MForever SOk; EPumpTake 0 true; EPumpPut 0; ERecv 0 0 1;
+               EReply 0 0 1; EWait 1 0 false (WGot (RFor 1)); ECloseBegin 0; EPumpTake 0 true; ECloseEnd 0] = Some s
+            /\ c_pump (gc s 0) = PExit /\ t_closed (gt s 0) = true.
+Proof. exact rdisc_satisfiable. Qed.
+Print Assumptions C36_nonzero_id_guard_satisfiable.
+
+(** *** finding 6: topics created inside a closed queue *)
+Theorem C36_closed_queue_no_open_topic_refuted : ~ closed_queue_no_open_topic_full.
+Proof. exact closed_queue_no_open_topic_refuted. Qed.
+Print Assumptions C36_closed_queue_no_open_topic_refuted.
+
+Theorem C36_closed_queue_no_open_topic_partial :
+  forall cp tr s, grun qdisc (init cp) tr = Some s -> s_qclosing s = true ->
+    forall t, In t (map fst (s_topics s)) -> t_closed (gt s t) = true.
+Proof. exact closed_queue_no_open_topic_proof. Qed.
+Print Assumptions C36_closed_queue_no_open_topic_partial.
+
+Theorem C36_wait_after_queue_close_refuted : ~ wait_after_queue_close_full.
+Proof. exact wait_after_queue_close_refuted. Qed.
+Print Assumptions C36_wait_after_queue_close_refuted.
+
+Theorem C36_wait_after_queue_close_partial :
+  forall cp tr s, grun qdisc (init cp) tr = Some s -> s_qclosed s = true ->
+    forall c o timed, topic_known s (o_topic (go s o)) = true ->
+      exists r s', step s (EWait c o timed r) = Some s'.
+Proof. exact wait_after_queue_close_proof. Qed.
+Print Assumptions C36_wait_after_queue_close_partial.
+
+Theorem C36_known_topic_wait_returns :
+  forall cp tr s0 s1, run (init cp) tr = Some s0 -> s_qclosing s0 = false ->
+    (step s0 ECloseQueue = Some s1 \/ step s0 ECloseQBegin = Some s1) ->
+    forall tr2 s2, run s1 tr2 = Some s2 ->
+    forall t, topic_known s0 t = true ->
+      t_closed (gt s2 t) = true
+      /\ forall c o timed, o_topic (go s2 o) = t -> exists r s3, step s2 (EWait c o timed r) = Some s3.
+Proof. exact known_topic_wait_returns. Qed.
+Print Assumptions C36_known_topic_wait_returns.
+
+Example C36_send_racing_queue_close :
+  exists s, run (init (mkCaps 2 2 5)) race_trace = Some s
+            /\ s_qclosed s = true /\ In 7 (map fst (s_topics s)) /\ t_closed (gt s 7) = false
+            /\ f_len (t_high (gt s 7)) = 1
+            /\ forall r, step s (EWait 1 0 false r) = None.
+Proof. exact race_runs. Qed.
+Print Assumptions C36_send_racing_queue_close.
+
+Example C36_late_topic_wait_blocks :
+  exists s, run (init (mkCaps 2 2 5)) late_wait_trace = Some s
+            /\ s_qclosed s = true /\ In 7 (map fst (s_topics s)) /\ t_closed (gt s 7) = false
+            /\ forall r, step s (EWait 1 0 false r) = None.
+Proof. exact late_wait_runs. Qed.
+Print Assumptions C36_late_topic_wait_blocks.
+
+Example C36_topic_guard_satisfiable :
+  exists s, grun qdisc (init (mkCaps 2 2 5)) guarded_close_trace = Some s
+            /\ s_qclosed s = true /\ map fst (s_topics s) = [0] /\ t_closed (gt s 0) = true.
+Proof. exact guarded_close_runs. Qed.
+Print Assumptions C36_topic_guard_satisfiable.
